@@ -139,7 +139,16 @@ def expectation(inp: dict, ps: dict, t0: float, tz: str | None = None) -> dict:
     if "exc" in lv:
         return {"exit": 2, "stdout": "", "why": lv["exc"]}
     raw = text.encode("utf-8")
-    return {"exit": 0, "stdout": expected_stdout(lv["rows"], ps["fmt"], raw), "rows": len(lv["rows"])}
+    exp = {"exit": 0, "stdout": expected_stdout(lv["rows"], ps["fmt"], raw), "rows": len(lv["rows"])}
+    if _NUL_IN_REPORT_NAME.search(text):
+        # a NUL byte inside the file name of one of the project's own reports: that report cannot be written
+        # ("embedded null byte"), report generation fails, the contract says 2 - the library reference, which
+        # writes no files, cannot see it
+        exp["alt_exit"] = 2
+    return exp
+
+
+_NUL_IN_REPORT_NAME = __import__("re").compile(r'report\s+(\w+\s+)?"[^"\n]*\x00')
 
 
 def _v(oracle, sig, detail):
